@@ -1761,6 +1761,23 @@ fn directed_builders(out: &mut dyn Write) {
 const OP_NAMES: [&str; 4] = ["add_topic_alias", "remove_topic_add_topic_alias", "remove_topic_alias", "remove_topic_alias_add_topic"];
 
 fn publish_op_case(out: &mut dyn Write, topic: &str, qos: u8, payload: &[u8], props: &Properties, op: u8, alias: u16, new_topic: &str) {
+    publish_op_case_pw(out, 2, topic, qos, payload, props, op, alias, new_topic)
+}
+
+#[allow(clippy::too_many_arguments)]
+fn publish_op_case_pw(out: &mut dyn Write, pw: u8, topic: &str, qos: u8, payload: &[u8], props: &Properties, op: u8, alias: u16, new_topic: &str) {
+    if pw == 2 {
+        publish_op_case_u16(out, pw, topic, qos, payload, props, op, alias, new_topic)
+    } else {
+        publish_op_case_u32(out, pw, topic, qos, payload, props, op, alias, new_topic)
+    }
+}
+
+macro_rules! def_publish_op_case {
+    ($name:ident, $T:ty) => {
+#[allow(clippy::too_many_arguments)]
+fn $name(out: &mut dyn Write, pw: u8, topic: &str, qos: u8, payload: &[u8], props: &Properties, op: u8, alias: u16, new_topic: &str) {
+    type T = $T;
     let base_has_alias = props.iter().any(|p| matches!(p, Property::TopicAlias(_)));
     let without: Properties = props.iter().filter(|p| !matches!(p, Property::TopicAlias(_))).cloned().collect();
     let mut with = without.clone();
@@ -1776,14 +1793,14 @@ fn publish_op_case(out: &mut dyn Write, topic: &str, qos: u8, payload: &[u8], pr
     // the operation applies to a packet a builder accepted; a base call the builder refuses is an
     // ordinary builder case (its error belongs to the base call, not to the derived fields)
     let base_ok = {
-        let mut b = v5::GenericPublish::<u16>::builder().qos(Qos::try_from(qos).unwrap()).payload(payload.to_vec()).props(props.clone());
+        let mut b = v5::GenericPublish::<T>::builder().qos(Qos::try_from(qos).unwrap()).payload(payload.to_vec()).props(props.clone());
         if qos > 0 {
-            b = b.packet_id(1u16);
+            b = b.packet_id(1 as T);
         }
         catch_unwind(AssertUnwindSafe(|| b.topic_name(topic).and_then(|b| b.build()).is_ok())).unwrap_or(false)
     };
     if !base_ok {
-        publish_case(out, 5, 2, Some(topic.to_string()), Some(qos), None, None, if qos > 0 { Some(1) } else { None }, Some(payload.to_vec()), Some(props.clone()));
+        publish_case(out, 5, pw, Some(topic.to_string()), Some(qos), None, None, if qos > 0 { Some(1) } else { None }, Some(payload.to_vec()), Some(props.clone()));
         return;
     }
     let desc = format!(
@@ -1792,10 +1809,10 @@ fn publish_op_case(out: &mut dyn Write, topic: &str, qos: u8, payload: &[u8], pr
         hex(rtopic.as_bytes()), qos, if qos > 0 { "1".to_string() } else { "none".to_string() }, hex(payload), props_hex(&rprops)
     );
     let (t, pl, ps, nt) = (topic.to_string(), payload.to_vec(), props.clone(), new_topic.to_string());
-    b_line(out, 5, 2, 0x30, &desc, move || {
-        let mut b = v5::GenericPublish::<u16>::builder().topic_name(t.as_str())?.qos(Qos::try_from(qos).unwrap()).payload(pl).props(ps);
+    b_line(out, 5, pw, 0x30, &desc, move || {
+        let mut b = v5::GenericPublish::<T>::builder().topic_name(t.as_str())?.qos(Qos::try_from(qos).unwrap()).payload(pl).props(ps);
         if qos > 0 {
-            b = b.packet_id(1u16);
+            b = b.packet_id(1 as T);
         }
         let p = b.build()?;
         match op {
@@ -1804,8 +1821,12 @@ fn publish_op_case(out: &mut dyn Write, topic: &str, qos: u8, payload: &[u8], pr
             2 => Ok(p.remove_topic_alias()),
             _ => p.remove_topic_alias_add_topic(nt),
         }
-    }, |f, body| v5::GenericPublish::<u16>::parse(f, Arc::from(body)));
+    }, |f, body| v5::GenericPublish::<T>::parse(f, Arc::from(body)));
 }
+    };
+}
+def_publish_op_case!(publish_op_case_u16, u16);
+def_publish_op_case!(publish_op_case_u32, u32);
 
 fn publish_ops(rng: &mut Rng, thorough: bool, out: &mut dyn Write) {
     writeln!(out, "T codec publish-ops").unwrap();
@@ -1830,6 +1851,15 @@ fn publish_ops(rng: &mut Rng, thorough: bool, out: &mut dyn Write) {
     for nt in ["", "a/#", "+", "x"] {
         publish_op_case(out, "", 1, b"p", &vec![Property::TopicAlias(TopicAlias::new(3).unwrap())], 3, 7, nt);
     }
+    // directed: 4-byte packet ids (the length bookkeeping of every operation at QoS 0/1/2)
+    for qos in [0u8, 1, 2] {
+        for op in 0..4u8 {
+            for n in [0usize, 3, 121, 16380] {
+                publish_op_case_pw(out, 4, "t", qos, b"pay", &vec![up(n)], op, 7, "x/y");
+                publish_op_case_pw(out, 4, "", qos, b"pay", &vec![up(n), Property::TopicAlias(TopicAlias::new(3).unwrap())], op, 7, "x/y");
+            }
+        }
+    }
     publish_op_case(out, "", 0, b"p", &vec![Property::TopicAlias(TopicAlias::new(3).unwrap())], 3, 7, &"a".repeat(65536));
     // random
     for i in 0..(if thorough { 4000 } else { 400 }) {
@@ -1840,7 +1870,8 @@ fn publish_ops(rng: &mut Rng, thorough: bool, out: &mut dyn Write) {
         let n = gen_len(rng, false);
         let payload = gen_bytes(rng, n);
         let nt = gen_topic(rng, false);
-        publish_op_case(out, &topic, rng.below(3) as u8, &payload, &props, rng.below(4) as u8, 1 + rng.below(65535) as u16, &nt);
+        let pw = if rng.chance(1, 4) { 4 } else { 2 };
+        publish_op_case_pw(out, pw, &topic, rng.below(3) as u8, &payload, &props, rng.below(4) as u8, 1 + rng.below(65535) as u16, &nt);
     }
     writeln!(out, "END").unwrap();
 }
@@ -1974,12 +2005,12 @@ fn replay_b(ver: u8, pw: u8, ty: u8, toks: &[&str], out: &mut dyn Write) -> bool
                 let payload = o(get("payload"), hexs)?;
                 if let Some(op) = get("op") {
                     let f: Vec<&str> = op.split('/').collect();
-                    if f.len() != 5 || ver != 5 || pw != 2 {
+                    if f.len() != 5 || ver != 5 {
                         return Err(());
                     }
                     let opn = OP_NAMES.iter().position(|n| *n == f[0]).ok_or(())? as u8;
                     let alias: u16 = f[1].parse().map_err(|_| ())?;
-                    publish_op_case(out, &strs(f[3]).ok_or(())?, qos.ok_or(())?, &payload.ok_or(())?, &props(f[4]).ok_or(())?, opn, alias, &strs(f[2]).ok_or(())?);
+                    publish_op_case_pw(out, pw, &strs(f[3]).ok_or(())?, qos.ok_or(())?, &payload.ok_or(())?, &props(f[4]).ok_or(())?, opn, alias, &strs(f[2]).ok_or(())?);
                 } else {
                     publish_case(out, ver, pw, o(get("topic"), strs)?, qos, o(get("dup"), flag)?, o(get("retain"), flag)?,
                         o(get("pid"), |x| x.parse().ok())?, payload, ps("props")?);
